@@ -108,8 +108,15 @@ def run(prop, tier, seed, verdict, cov):
     rng = random.Random(seed)
     nsess = 300 if tier == 'quick' else 12000
     games = load_games(seed, 200 if tier == 'quick' else 4000)
+    # a few long games (well over a hundred moves) given in one command
+    p_long = run_harness(['games', '--seed', seed + 7, '--n', 3 if tier == 'quick' else 40, '--plies', 260, '--seeds', os.path.join(ROOT, 'seeds')])
+    long_games = [(l.split('|')[0], l.split('|')[1].split()) for l in p_long.stdout.split('\n') if '|' in l]
+    long_games = [g for g in long_games if len(g[1]) >= 100]
     d = fresh_dir('c08-%d' % os.getpid())
     sessions = [make_session(rng, games) for _ in range(nsess)]
+    for start, moves in long_games:
+        sessions.append([pos_line(start, moves), pos_line(start, moves[:-1] + ['zzzz']), 'isready'])
+    nsess = len(sessions)
     per = max(8, nsess // (3 * max(1, NCPU - 2)))
     per = min(per, 40)
     files = []
